@@ -51,6 +51,12 @@ pub fn parse_addr(s: &str) -> Option<SocketAddr> {
         ("v6", 16) => {
             let mut o = [0u8; 16];
             o.copy_from_slice(&ip);
+            // a link-local address comes with the scope of the interface it was received on: every fe80::/10
+            // address of the harness carries scope id 2 (never printed: the model's addresses have no scope, and
+            // because the scope is a function of the IP, equality of addresses is the same on both sides)
+            if o[0] == 0xfe && o[1] & 0xc0 == 0x80 {
+                return Some(SocketAddr::V6(std::net::SocketAddrV6::new(Ipv6Addr::from(o), port, 0, 2)));
+            }
             Some(SocketAddr::new(IpAddr::V6(Ipv6Addr::from(o)), port))
         }
         _ => None,
@@ -145,4 +151,17 @@ pub fn parse_at(s: &str) -> Option<u128> {
 pub fn kv<'a>(words: &'a [&'a str], key: &str) -> Option<&'a str> {
     let p = format!("{key}=");
     words.iter().find_map(|w| w.strip_prefix(p.as_str()))
+}
+
+/// an IPv6 address with structure in it, built around 4 given low bytes: IPv4-mapped (`::ffff:a.b.c.d`),
+/// IPv4-compatible (`::a.b.c.d`) or NAT64 (`64:ff9b::a.b.c.d`) — all of them are IPv6 contacts as far as
+/// the DHT is concerned, and two of them with the same low bytes are different hosts
+pub fn structured_v6(kind: u64, low: [u8; 4]) -> Vec<u8> {
+    let mut a = match kind % 3 {
+        0 => { let mut a = vec![0u8; 10]; a.extend_from_slice(&[0xff, 0xff]); a }
+        1 => vec![0u8; 12],
+        _ => { let mut a = vec![0u8, 0x64, 0xff, 0x9b]; a.extend_from_slice(&[0u8; 8]); a }
+    };
+    a.extend_from_slice(&low);
+    a
 }
